@@ -1,4 +1,11 @@
 import O4.Lemmas.C10
+import O4.Lemmas.Obfs4Chunk
+import O4.Props.C03
+import O4.Props.C13
+import O4.Props.C14
+import O4.Props.C15
+import O4.Props.C16
+import O4.Props.C17
 /-!
 # C10 — no peer input can crash, wedge or bloat an endpoint (the part provable over the models
 that exist: obfs4 handshake parsers, obfs4 frame decoder, packet layer and `Read` loop)
@@ -239,9 +246,14 @@ theorem obfs4_data_progress (c : Crypto) (hc : CryptoSane c) (srv : Bool) (rx : 
 
 /-! ## obfs4 data phase: the buffers are bounded for every peer and chunking -/
 
+/-- the bytes a network read returned (with or without an error) -/
+def evChunk : NetEv → Bytes
+  | .data ch => ch
+  | .fail ch _ => ch
+
 /-- every network read returns at most `consumeReadSize` bytes (`readBuffer`) -/
 def ChunksBounded (evs : List NetEv) : Prop :=
-  ∀ ch, NetEv.data ch ∈ evs → ch.length ≤ consumeReadSize
+  ∀ ev ∈ evs, (evChunk ev).length ≤ consumeReadSize
 
 /-- what holds between `Read` calls on a connection that has not failed: the decoder state is
     legal, `receiveBuffer` holds at most `S` bytes and both buffers together at most
@@ -288,7 +300,7 @@ private theorem read_inv (c : Crypto) (hc : CryptoSane c) (srv : Bool) (n : Nat)
       exact hi
   | cons ev rest ih =>
     intro rx hi hcb
-    have hrest : ChunksBounded rest := fun ch hm => hcb ch (by simp [hm])
+    have hrest : ChunksBounded rest := fun ev' hm => hcb ev' (by simp [hm])
     have := hi.total
     have := hi.raw
     by_cases hdz : rx.decoded.length > 0
@@ -304,7 +316,7 @@ private theorem read_inv (c : Crypto) (hc : CryptoSane c) (srv : Bool) (n : Nat)
           ((readPackets c srv rx ev).2 = none → (readPackets c srv rx ev).1.rxBuf.length ≤ S) := by
         cases ev with
         | data chunk =>
-          have hch : chunk.length ≤ consumeReadSize := hcb chunk (by simp)
+          have hch : chunk.length ≤ consumeReadSize := hcb (.data chunk) (by simp)
           simp only [readPackets]
           have hd1 : DecOK ({ rx with rxBuf := rx.rxBuf ++ chunk } : Rx).dec := hi.dec
           obtain ⟨t1, t2, t3⟩ := processBuffer_total c hc srv
@@ -314,9 +326,13 @@ private theorem read_inv (c : Crypto) (hc : CryptoSane c) (srv : Bool) (n : Nat)
           have hs := processBuffer_settles c hc srv _ _ hd1 (by unfold procFuel; omega) herr
           have := settled_short c srv _ _ t1 hs
           omega
-        | fail cls =>
+        | fail chunk cls =>
+          have hch : chunk.length ≤ consumeReadSize := hcb (.fail chunk cls) (by simp)
           simp only [readPackets]
-          obtain ⟨t1, t2, t3⟩ := processBuffer_total c hc srv (procFuel rx) rx hi.dec
+          have hd1 : DecOK ({ rx with rxBuf := rx.rxBuf ++ chunk } : Rx).dec := hi.dec
+          obtain ⟨t1, t2, t3⟩ := processBuffer_total c hc srv
+            (procFuel { rx with rxBuf := rx.rxBuf ++ chunk }) _ hd1
+          simp only [List.length_append] at t2 t3
           exact ⟨t1, by omega, fun h => by simp at h⟩
       obtain ⟨k1, k2, k3⟩ := key
       cases hrp : readPackets c srv rx ev with
@@ -414,6 +430,259 @@ theorem obfs4_data_settles (c : Crypto) (hc : CryptoSane c) (srv : Bool) (rx : R
 /-- the bound is below the "`consumeReadSize` + one segment" of the property text -/
 theorem obfs4DataBound_lt : obfs4DataBound < consumeReadSize + maximumSegmentLength := by decide
 
+
+/-! # Aggregation over the per-transport models (obfs4 server machine, obfs2, obfs3, ScrambleSuit,
+SOCKS5, meek_lite)
+
+The models and their detailed theorems belong to C03, C13, C14, C15, C16, C17; here the four C10
+obligations — `no_panic`, `buffers_bounded`, `progress`, `deadline_discipline` — are restated per
+transport in one place (each is audited here like any other property theorem), and what was
+missing is proved. -/
+
+/-! ## handshake deadline wrappers (obfs2, obfs3, obfs4 client, ScrambleSuit client, SOCKS5) -/
+
+/-- what a handshake does to its `net.Conn`, as far as the deadline discipline is concerned -/
+inductive ConnOp
+  | arm        -- `SetDeadline(now + timeout)`
+  | clear      -- `SetDeadline(time.Time{})`
+  | read
+  | write
+deriving DecidableEq, Repr
+
+/-- `newObfs2ClientConn` / `newObfs2ServerConn` (obfs2.go:158-196), `newObfs3ClientConn` /
+    `newObfs3ServerConn` (obfs3.go:137-175), `newObfs4ClientConn` (obfs4.go:318-337) and
+    `newScrambleSuitClientConn` (conn.go:515-534) are the same six lines: arm the deadline, run
+    the handshake proper (`body`: the reads and writes it performs, and whether it succeeded),
+    clear the deadline **only on success**, return the error otherwise (the caller closes). -/
+def wrapHandshake (body : List ConnOp × Bool) : List ConnOp × Bool :=
+  (ConnOp.arm :: body.1 ++ (if body.2 then [ConnOp.clear] else []), body.2)
+
+/-- `socks5.Handshake` (socks5.go:127-164): arm, `defer` the clear — it runs on every return -/
+def wrapSocks (body : List ConnOp × Bool) : List ConnOp × Bool :=
+  (ConnOp.arm :: body.1 ++ [ConnOp.clear], body.2)
+
+/-- the handshake proper only reads and writes -/
+def BodyPlain (body : List ConnOp × Bool) : Prop := ∀ op ∈ body.1, op = .read ∨ op = .write
+
+/-- the three clauses of the property text, for a trace of conn operations and a verdict:
+    a deadline is armed before the first `Read`; on success the last deadline operation is the
+    clear; failure is reported to the caller (the verdict is what the wrapper returns) -/
+def DeadlineDiscipline (t : List ConnOp × Bool) (bodyOk : Bool) : Prop :=
+  (∃ rest, t.1 = ConnOp.arm :: rest) ∧
+  (t.2 = true → ∃ pre, t.1 = pre ++ [ConnOp.clear] ∧ ConnOp.clear ∉ pre) ∧
+  t.2 = bodyOk
+
+private theorem clear_not_in_plain (l : List ConnOp) (h : ∀ op ∈ l, op = ConnOp.read ∨ op = ConnOp.write) :
+    ConnOp.clear ∉ ConnOp.arm :: l := by
+  intro hm
+  simp only [List.mem_cons] at hm
+  rcases hm with h0 | hm
+  · cases h0
+  · rcases h _ hm with h1 | h1 <;> cases h1
+
+/-- **deadline discipline of the six-line wrappers**, for every handshake body -/
+theorem handshake_deadline_discipline (body : List ConnOp × Bool) (hb : BodyPlain body) :
+    DeadlineDiscipline (wrapHandshake body) body.2 := by
+  refine ⟨⟨_, rfl⟩, fun hok => ?_, rfl⟩
+  have hok' : body.2 = true := hok
+  refine ⟨ConnOp.arm :: body.1, by simp [wrapHandshake, hok'], clear_not_in_plain _ hb⟩
+
+/-- … and of `socks5.Handshake` (which additionally clears on failure) -/
+theorem socks5_deadline_discipline (body : List ConnOp × Bool) (hb : BodyPlain body) :
+    DeadlineDiscipline (wrapSocks body) body.2 ∧
+    ∃ pre, (wrapSocks body).1 = pre ++ [ConnOp.clear] := by
+  refine ⟨⟨⟨_, rfl⟩, fun _ => ⟨ConnOp.arm :: body.1, by simp [wrapSocks], clear_not_in_plain _ hb⟩, rfl⟩,
+    ⟨ConnOp.arm :: body.1, by simp [wrapSocks]⟩⟩
+
+example : DeadlineDiscipline (wrapHandshake ([.write, .read, .read], true)) true :=
+  handshake_deadline_discipline _ (by intro op h; simp at h; rcases h with rfl | rfl | rfl <;> simp)
+example : (wrapHandshake ([.write, .read], false)).1 = [.arm, .write, .read] := by decide
+
+/-! ## obfs4 server (`WrapConn`): the event machine of `O4/Model/Obfs4Server.lean` -/
+
+/-- no panic: every parser invocation of every run — any events, any clock — sees a buffer on
+    which all slices are in range (`findMarkMac_in_range`, `obfs4_hs_server_ok_in_range`), and
+    the buffer it sees is bounded: shorter than `2·maxHandshakeLength` (C03.keeps_reading_bounded),
+    i.e. at most `obfs4HsBound` -/
+theorem obfs4_server_buffers_bounded (P : Handshake.Prims) (F : Obfs4Server.Factory)
+    (c : Obfs4Server.Conn) (f : RF.Filter) (evs : List Obfs4Server.Ev) :
+    ∀ k ∈ Obfs4Server.calls P F c f evs, k.buf.length ≤ obfs4HsBound := by
+  intro k hk
+  have := C03.keeps_reading_bounded P F c f evs k hk
+  have hb : obfs4HsBound = 2 * maxHandshakeLength - 1 := rfl
+  omega
+
+/-- progress: the machine is a fold over the network events — every event (a `Read` returning
+    bytes, a deadline firing, the peer closing) is consumed by exactly one `step`; in the
+    discard phase every arrival is consumed and dropped and the phase ends with the first read
+    error (C03.keeps_reading) -/
+theorem obfs4_server_progress (P : Handshake.Prims) (F : Obfs4Server.Factory) (c : Obfs4Server.Conn)
+    (s : Obfs4Server.State) (er : Obfs4Server.Err) (hph : s.phase = .discarding er) :
+    (∀ evs : List Obfs4Server.Ev, (∀ e ∈ evs, ∃ chunk, e.ev = .recv chunk) →
+      Obfs4Server.runFrom P F c s evs = (s, evs.map (fun e => (e, [])))) ∧
+    (∀ e : Obfs4Server.Ev, e.ev = .readDeadlineFires ∨ e.ev = .peerCloses →
+      Obfs4Server.step P F c s e = (⟨.closed, s.filter⟩, [.close, .returnErr er])) :=
+  C03.keeps_reading P F c s er hph
+
+/-- deadline discipline, every run: `SetDeadline(start + serverHandshakeTimeout)` comes first;
+    then nothing yet / the close-delay read deadline (and close) / on success the clear followed
+    by exactly one write (C03.deadline_discipline) -/
+theorem obfs4_server_deadline_discipline (P : Handshake.Prims) (F : Obfs4Server.Factory)
+    (c : Obfs4Server.Conn) (f : RF.Filter) (evs : List Obfs4Server.Ev) :
+    let D := Obfs4Server.closeDeadline c.start F.closeDelay
+    ∃ w, Obfs4Server.wire (Obfs4Server.run P F c f evs).2
+        = Obfs4Server.Out.setDeadline (some (c.start + (serverHandshakeTimeout : Int))) :: w ∧
+      (w = [] ∨ w = [.setReadDeadline D] ∨ w = [.setReadDeadline D, .close] ∨ w = [.close]
+        ∨ ∃ b, w = [.setDeadline none, .write b]) :=
+  C03.deadline_discipline P F c f evs
+
+/-! ## obfs4 data phase: progress at the `Read` level (with `obfs4_data_progress` above) -/
+
+/-- a `Read` with a non-empty buffer that returns without error hands over at least one byte
+    (it never returns `(0, nil)`): the caller's loop makes progress too -/
+theorem obfs4_read_progress (c : Crypto) (srv : Bool) (n : Nat) (hn : 0 < n) (rx : Rx)
+    (evs : List NetEv) (rx' : Rx) (bytes : Bytes) (rest : List NetEv)
+    (h : read c srv n rx evs = .ret rx' bytes none rest) : 0 < bytes.length :=
+  O4.Obfs4.read_ret_progress c srv n hn rx evs rx' bytes rest h
+
+/-! ## obfs3 -/
+
+/-- no panic: with primitives of the real sizes, starting the handshake and feeding any bytes
+    in any segmentation never reaches a Go run-time panic (C13.no_panic_handshake) -/
+theorem obfs3_no_panic (P : O4.Obfs3.Prims) (hP : C13.PrimsOk P) (initiator : Bool)
+    (priv pad : Bytes) :
+    O4.Obfs3.startWith P initiator priv pad ≠ .error .panic ∧
+    ∀ c w, O4.Obfs3.startWith P initiator priv pad = .ok (c, w) →
+      ∀ cs : List Bytes, (O4.Obfs3.feedAll P c [] cs).1.phase ≠ .panicked :=
+  C13.no_panic_handshake P hP initiator priv pad
+
+/-- buffers bounded: `rxBuf` (and its running maximum) never exceeds `obfs3Bound`, for every
+    input, segmentation and interleaving of `Read` calls (C13.buffer_bounded_read) -/
+theorem obfs3_buffers_bounded (P : O4.Obfs3.Prims) (c : O4.Obfs3.Conn) (hb : c.rxBuf = some [])
+    (hp : c.peak = 0) (q : O4.SC.Net) (evs : List O4.Obfs3.Ev) :
+    ((O4.Obfs3.runEvs P { c := c, q := q, outs := [], failed := none } evs).c.rxBuf.getD []).length
+      ≤ obfs3Bound ∧
+    (O4.Obfs3.runEvs P { c := c, q := q, outs := [], failed := none } evs).c.peak ≤ obfs3Bound := by
+  have h := C13.buffer_bounded_read P c hb hp q evs
+  have hv : 2 * (Consts.Obfs3.maxPadding + Consts.Obfs3.sha256Size) = obfs3Bound + 1 := by decide
+  simp only at h
+  omega
+
+/-- progress: after the magic, a `Read` with a non-empty buffer returns at least one byte
+    whenever ciphertext is buffered or queued (C13.read_progress) -/
+theorem obfs3_progress (P : O4.Obfs3.Prims) (ks) (hL : P.sxor.Law ks) (c : O4.Obfs3.Conn)
+    (q : O4.SC.Net) (max : Nat) (hmax : 0 < max) (hm : c.rxMagic = none) (hcl : c.closed = false)
+    (hq : ∀ ch ∈ q, ch ≠ []) (hpend : O4.Obfs3.pending c q ≠ []) :
+    ∃ c' o q', O4.Obfs3.read P c max q = .data c' o q' ∧ o ≠ [] ∧ o.length ≤ max :=
+  C13.read_progress P ks hL c q max hmax hm hcl hq hpend
+
+/-! ## obfs2 -/
+
+/-- no panic (C14.no_panic_handshake) -/
+theorem obfs2_no_panic (P : O4.Obfs2.Prims) (hP : O4.Obfs2.PrimsOk P) (initiator : Bool)
+    (seed pad : Bytes) (padLen : Nat) :
+    O4.Obfs2.startWith P initiator seed padLen pad ≠ .error .panic ∧
+    ∀ c w, O4.Obfs2.startWith P initiator seed padLen pad = .ok (c, w) →
+      ∀ cs : List Bytes, (O4.Obfs2.feedAll P c [] cs).1.phase ≠ .panicked :=
+  C14.no_panic_handshake P hP initiator seed pad padLen
+
+/-- buffers bounded: the one allocation whose size the peer controls
+    (`tmp := make([]byte, padLen)`) never exceeds `maxPadding` (C14.buffer_bounded_handshake);
+    afterwards obfs2 buffers nothing (`cipher.StreamReader` decrypts in place) -/
+theorem obfs2_buffers_bounded (P : O4.Obfs2.Prims) (c : O4.Obfs2.Conn)
+    (h0 : c.alloc ≤ Consts.Obfs2.maxPadding) (q : O4.SC.Net) (cs : List Bytes) :
+    (O4.Obfs2.feedAll P c q cs).1.alloc ≤ Consts.Obfs2.maxPadding :=
+  C14.buffer_bounded_handshake P c h0 q cs
+
+/-- progress: the handshake loop runs to quiescence in at most three steps (seed, header,
+    padding): afterwards it needs more input or is done (Lemmas/Obfs2) -/
+theorem obfs2_progress (P : O4.Obfs2.Prims) (c : O4.Obfs2.Conn) (q : O4.SC.Net) :
+    (O4.Obfs2.hsMachine P).Quiescent (O4.Obfs2.progress P c q).1 (O4.Obfs2.progress P c q).2.flatten :=
+  O4.Obfs2.progress_quiescent P c q
+
+/-! ## ScrambleSuit client -/
+
+/-- no panic, handshake response: for every parser state and every input the outcome is not
+    `panic` (C15.no_panic_response — this is the statement that was false before the F3 repair) -/
+theorem scramblesuit_no_panic_response (P : O4.SS.Prims) (hs : O4.SS.DhHs) (resp : Bytes) :
+    (hs.parse P true resp).2 ≠ .panic :=
+  C15.no_panic_response P hs resp
+
+/-- no panic, packet reader: whenever it holds a decoded header, `payloadLen ≤ totalLen ≤
+    maxPayloadLength` — the guards of `make([]byte, totalLen)` and `data[:payloadLen]`
+    (C15.no_panic_packets) -/
+theorem scramblesuit_no_panic_packets (P : O4.SS.Prims) (k : O4.SS.DirKeys) (o : Nat)
+    (surplus : Bytes) (cs : List Bytes) :
+    O4.SS.RxOk (O4.SS.feedChunks P k (O4.SS.Rx.init o) surplus cs).1 :=
+  C15.no_panic_packets P k o surplus cs
+
+/-- buffers bounded, handshake: "not yet" only below `maxHandshakeLength`, so the buffer stays
+    within `ssHsBound` (C15.buffer_bounded_response) -/
+theorem scramblesuit_buffers_bounded_response (P : O4.SS.Prims) (hm : O4.SS.MacLen P)
+    (hs : O4.SS.DhHs) (resp : Bytes)
+    (hmark : hs.serverPub.isSome → hs.serverMark.length = Consts.Scramblesuit.macLength)
+    (h : (hs.parse P true resp).2 = .notYet) :
+    resp.length < Consts.Scramblesuit.maxHandshakeLength ∧
+    ∀ next : Bytes, next.length ≤ Consts.Scramblesuit.maxHandshakeLength →
+      (resp ++ next).length ≤ ssHsBound := by
+  obtain ⟨h1, h2⟩ := C15.buffer_bounded_response P hm hs resp hmark h
+  refine ⟨h1, fun next hn => ?_⟩
+  have := h2 next hn
+  have hb : ssHsBound = 2 * Consts.Scramblesuit.maxHandshakeLength - 1 := rfl
+  omega
+
+/-- buffers bounded, data phase: after every `readPackets` that did not fail less than
+    `maxPayloadLength` bytes stay buffered, and the next read adds at most `maxSegmentLength`
+    (C15.buffer_bounded_packets); both are within `ssDataBound` -/
+theorem scramblesuit_buffers_bounded_packets (P : O4.SS.Prims) (k : O4.SS.DirKeys) (o : Nat)
+    (surplus c : Bytes) (cs : List Bytes)
+    (hf : (O4.SS.feedChunks P k (O4.SS.Rx.init o) surplus (c :: cs)).1.failed = false) :
+    (O4.SS.feedChunks P k (O4.SS.Rx.init o) surplus (c :: cs)).2.2.length
+      < Consts.Scramblesuit.maxPayloadLength ∧
+    ∀ next : Bytes, next.length ≤ Consts.Scramblesuit.maxSegmentLength →
+      ((O4.SS.feedChunks P k (O4.SS.Rx.init o) surplus (c :: cs)).2.2 ++ next).length ≤ ssDataBound := by
+  obtain ⟨h1, h2⟩ := C15.buffer_bounded_packets P k o surplus c cs hf
+  refine ⟨h1, fun next hn => ?_⟩
+  have := h2 next hn
+  have hb : Consts.Scramblesuit.maxPayloadLength + Consts.Scramblesuit.maxSegmentLength ≤ ssDataBound := by
+    decide
+  omega
+
+/-! ## SOCKS5 front end -/
+
+/-- no panic, and the call ends: every chunk list — any bytes, any segmentation, with or
+    without EOF — is answered by a specified outcome, never `panic`; it waits for more input
+    only while the peer has not closed (C17.malformed_total, C17.spec_total) -/
+theorem socks5_no_panic (cs : List Bytes) (eof : Bool) :
+    (O4.Socks5.run cs eof).outcome ≠ .panic ∧
+    ((O4.Socks5.run cs eof).outcome = .blocked → eof = false) ∧
+    (O4.Socks5.specRun cs.flatten eof).outcome ≠ .panic :=
+  ⟨(C17.malformed_total cs eof).1, (C17.malformed_total cs eof).2.2.2.1, C17.spec_total _ eof⟩
+
+/-! ## meek_lite client -/
+
+/-- buffers bounded: the two worker channels never hold more than `maxChanBacklog` entries
+    and no body exceeds `maxPayloadLength` (C16.queues_bounded, C16.body_bound), for every
+    schedule; together with the one response the worker holds and the partially read one this
+    is `meekBound` -/
+theorem meek_buffers_bounded (fixed : Bool) (sid : Nat) (cs : List O4.Meek.Choice) :
+    (O4.Meek.run fixed (O4.Meek.init sid) cs).rdQ.length ≤ Consts.Meeklite.maxChanBacklog ∧
+    (O4.Meek.run fixed (O4.Meek.init sid) cs).wrQ.length ≤ Consts.Meeklite.maxChanBacklog ∧
+    (∀ r ∈ (O4.Meek.run fixed (O4.Meek.init sid) cs).reqs, r.2.length ≤ Consts.Meeklite.maxPayloadLength) ∧
+    (Consts.Meeklite.maxChanBacklog + 2) * Consts.Meeklite.maxPayloadLength = meekBound :=
+  ⟨(C16.queues_bounded fixed sid cs).2, (C16.queues_bounded fixed sid cs).1,
+    (C16.body_bound fixed sid cs).1, rfl⟩
+
+/-- progress / no wedge after `Close` (the repair found under C10): a worker that is blocked
+    handing a response to a full read queue leaves its loop once `Close` has taken effect — the
+    close step is enabled there, drops the undeliverable body and reaches the exit; and once
+    exited it never issues another request (C16.after_close_worker) -/
+theorem meek_worker_exits_on_close (fixed : Bool) (s : O4.Meek.State) (body : Bytes)
+    (hc : s.closed = true) (hw : s.wpc = .enq body) :
+    (O4.Meek.step fixed s .wClose).wpc = .x1 ∧
+    (O4.Meek.step fixed s .wClose).dropped = s.dropped ++ [body] := by
+  simp [O4.Meek.step, hw, hc]
+
 /-! ## non-vacuity: a concrete link crypto satisfying `CryptoSane`, and a concrete run -/
 
 /-- a toy link crypto: 16 zero bytes of "tag", no masking -/
@@ -451,7 +720,7 @@ deriving instance DecidableEq for O4.Obfs4.ReadResult
     `len b = 1` returns "h" and keeps "i" -/
 example : Reachable toyCrypto false Rx.init ⟨⟨1, none⟩, [], [105], []⟩ :=
   Reachable.ret (n := 1) (evs := [.data toyFrame]) (bytes := [104]) (rest := []) .init
-    (by intro ch h; simp only [List.mem_singleton, NetEv.data.injEq] at h; subst h; decide)
+    (by intro ev h; simp only [List.mem_singleton] at h; subst h; decide)
     (by decide)
 
 end C10
